@@ -57,9 +57,12 @@ def run_query(B, Q, k, emb_name, metric, tree, leaf, perm, spelling, shuffle=Tru
     qlat, qlon = ring.latlon(emb, Q)
     km = ring.threshold_km(k, N, metric)
     r = radius_spellings(km)[spelling]
+    keep = [a.copy() for a in (lat, lon, qlat, qlon)]
     with ForcedShuffle(perm) as fsh:
         idx = GeoIndex(lat, lon, metric=metric, tree_class=tree, shuffle=shuffle, leaf_size=leaf)
     res = idx.query(qlat, qlon, r, return_distance=return_distance)
+    if not all(np.array_equal(a, b) for a, b in zip(keep, (lat, lon, qlat, qlon))):
+        raise AssertionError("GeoIndex overwrote the coordinate arrays it was given")
     if return_distance:
         pairs, dist = res
     else:
